@@ -26,7 +26,58 @@ const (
 	fResetsZero  = "C18-resets-empty-window-zero"
 	fAbsentOff   = "C18-absent-over-time-offset-range-query"
 	fAbsentNeg   = "C18-absent-negative-matcher-on-absent-label"
+	fBinopNext   = "C18-range-binop-pairs-next-series-after-end"
 )
+
+// hasVectorVectorBinop: the expression contains an arithmetic / comparison operator between two instant vectors
+func hasVectorVectorBinop(expr string) bool {
+	e, err := parser.ParseExpr(expr)
+	if err != nil {
+		return false
+	}
+	found := false
+	parser.Inspect(e, func(n parser.Node, _ []parser.Node) error {
+		if b, ok := n.(*parser.BinaryExpr); ok && !b.Op.IsSetOperator() &&
+			b.LHS.Type() == parser.ValueTypeVector && b.RHS.Type() == parser.ValueTypeVector {
+			found = true
+		}
+		return nil
+	})
+	return found
+}
+
+// extraPointsOnly: sv contains every point of up (same label set, timestamp, value) and at least one additional point
+func extraPointsOnly(up, sv result) bool {
+	if up.Kind != "matrix" || sv.Kind != "matrix" || sv.Err != "" {
+		return false
+	}
+	sm := map[string]map[int64]float64{}
+	nsv := 0
+	for _, s := range sv.Series {
+		k := labelKey(s.Labels)
+		if _, dup := sm[k]; dup {
+			return false
+		}
+		m := map[int64]float64{}
+		for _, p := range s.Pts {
+			m[p.T] = p.V
+		}
+		sm[k] = m
+		nsv += len(s.Pts)
+	}
+	nup := 0
+	for _, s := range up.Series {
+		m := sm[labelKey(s.Labels)]
+		for _, p := range s.Pts {
+			v, ok := m[p.T]
+			if !ok || !feq(v, p.V) {
+				return false
+			}
+			nup++
+		}
+	}
+	return nsv > nup
+}
 
 const nosuchMetric = "c18_metric_without_samples"
 
@@ -430,6 +481,11 @@ func explainWith(ds *dataset, e *exprCase, mode string, start, lastStep, step in
 	}
 	if allowResets && strings.Contains(e.Expr, "resets(") && cmpResults(up, sv) != "" && extraZeros(up, sv) {
 		ex.Rules = addRule(ex.Rules, fResetsZero)
+		return true, ex, nregex
+	}
+	if mode == "range" && hasVectorVectorBinop(e.Expr) && cmpResults(up, sv) != "" && extraPointsOnly(up, sv) {
+		// the operator walks past the end of the exhausted series' rows into the next series of the chunk
+		ex.Rules = addRule(ex.Rules, fBinopNext)
 		return true, ex, nregex
 	}
 	if mode == "range" && hasMatrixSelector(e.Expr) && cmpResults(up, sv) != "" && trailingLoss(up, sv) {
